@@ -740,6 +740,7 @@ def check_case(ctx: Ctx, c: dict):
             printed = decode_placeholders(disp) if disp else {}
             seen = (len(data), [(iid, 1 + max(r for r, _ in cells), 1 + max(cc for _, cc in cells)) for (iid, _pid), cells in printed.items()])
             first_disp = min([e[0] for e in log.events[T.get("evpos", 0):] if e[1] == "disp:" + T["spec"].name and e[2] == "write"] or [1 << 60])
+            T["evpos_prev"] = T.get("evpos", 0)
             T["evpos"] = len(log.events)
             for (iid, pid), cells in printed.items():
                 rows = 1 + max(r for r, _ in cells)
@@ -750,8 +751,14 @@ def check_case(ctx: Ctx, c: dict):
                 token, erows, ecols = expect["token"], expect["rows"], expect["cols"]
                 token = _downscale_aware(ctx, c, req, token, expect["size"], expect["mode"], cfg, T["spec"], iid, expect["entry"],
                                          tx_rf.get((T["spec"].name, str(iid)), expect["is_file"]))
-                if ev_cmd_last > first_disp:
-                    ctx.violation("a transmit command was written after the placeholder was printed", c, req, key="print-before-transmit")
+                # The command stream may be buffered and is distinct from the display stream: command bytes have surely reached the
+                # terminal only at the flush that follows them; the placeholder may arrive as soon as it is written.
+                cmd_arrival = min([e[0] for e in log.events if e[1] == "cmd:" + T["spec"].name and e[2] == "flush" and e[0] > ev_cmd_last] or [1 << 61]) \
+                    if ev_cmd_last >= 0 else -1
+                if ev_cmd_last > first_disp or (cmd_arrival > first_disp and ev_cmd_last >= T.get("evpos_prev", 0)):
+                    ctx.violation("a transmit command was written (or still unflushed) when the placeholder was printed", c,
+                                  dict(req, last_command_write=ev_cmd_last, command_flushed_at=cmd_arrival if cmd_arrival < (1 << 61) else None,
+                                       first_placeholder_write=first_disp), key="print-before-transmit")
                 r = d.ask(f"printok {thr[0]} {thr[1]} {thr[2]} {iid} {token} {rows} {cols} {clock.micros()} {T['spec'].wire_log()}")
                 ok, shows = r.split(" ", 1)
                 if ok != "1":
@@ -884,6 +891,12 @@ def check_case(ctx: Ctx, c: dict):
                     if pool[pi].get("version", 0) != inst_version.get(req["inst"], 0):
                         ctx.count("skipped:instance-of-edited-in-memory-image")
                         continue
+                    if req.get("loaded"):
+                        # … of the instance as the library reads it back from the database by id
+                        inst0 = T.get_image_instance(inst0.id)
+                        if inst0 is None or inst0.get_description() != ent[0].get_description():
+                            ctx.count("redisplay-clone:id-rebound-or-unassigned")
+                            continue
                     inst = inst0.clone_with(cols=req["cols"], rows=req["rows"])
                     if pool[pi]["image"] is not None and inst.image is None:
                         inst.image = pool[pi]["image"]
@@ -939,6 +952,13 @@ def check_case(ctx: Ctx, c: dict):
                 # raised by the harness itself is a tool failure and goes up.
                 if kr is None or not _raised_in_library(ex):
                     raise
+                if isinstance(ex, ValueError) and (req.get("upload_method") or method_cfg) in UNSUPPORTED_METHODS:
+                    # a medium the library does not upload through (temporary file / shared memory as the METHOD): it refuses;
+                    # nothing may be printed and no file of the user's may be announced (F, in sync and on_transmit)
+                    ctx.count("exc:ValueError:unsupported-upload-method")
+                    sync(ti, req, refused_expect[0])
+                    kd.give_up("unsupported-upload-method")
+                    continue
                 ctx.count("exc:" + type(ex).__name__)
                 sync(ti, req, refused_expect[0])
                 if e is not None and not e.get("absent"):
@@ -957,6 +977,9 @@ def check_case(ctx: Ctx, c: dict):
         clock.uninstall()
         tempfile.tempdir = None
         shutil.rmtree(td, ignore_errors=True)
+
+
+UNSUPPORTED_METHODS = ("temp", "tempfile", "t", "shm", "s")
 
 
 def _raised_in_library(ex) -> bool:
@@ -1165,7 +1188,7 @@ def cases(ctx: Ctx):
         nterm = rng.choice([1, 1, 2, 3])
         space, sub = rng.choice([("8bit", "5:7"), ("8bit", "1:4"), ("16bit", "1:2"), ("24bit", "3:4"), ("32bit", "0:256"),
                                  ("8bit_diacritic", "2:4"), ("24bit", "0:256"), ("8bit", "9:10")])
-        method = rng.choice(["auto", "file", "direct", "auto"])
+        method = rng.choice(["auto", "file", "direct", "auto"]) if rng.random() < 0.96 else rng.choice(["temp", "shm"])
         ssh = rng.random() < 0.35
         cfg = dict(id_space=space, id_subspace=sub, upload_method=method,
                    max_command_size=rng.choice([4096, rng.randrange(110, 900), rng.randrange(110, 400)]),
@@ -1203,7 +1226,7 @@ def cases(ctx: Ctx):
                 if rng.random() < 0.1:
                     q["force_upload"] = True
                 if rng.random() < 0.15:
-                    q["upload_method"] = rng.choice(["file", "direct", "auto", "f", "d"])     # per call, whatever is configured
+                    q["upload_method"] = rng.choice(["file", "direct", "auto", "f", "d", "file", "direct", "temp", "t", "shm"])     # per call, whatever is configured
                 if rng.random() < 0.12:
                     # explicit IDs from the byte-class corners of the ID layout
                     b = lambda: rng.choice([0, 0, 1, 5, 127, 255])
@@ -1223,7 +1246,8 @@ def cases(ctx: Ctx):
             elif r < 0.64:
                 reqs.append(dict(op="redisplay_id", t=t, inst=rng.choice(names)))
             elif r < 0.66:
-                reqs.append(dict(op="redisplay_clone", t=t, inst=rng.choice(names), cols=rng.randrange(1, 7), rows=rng.randrange(1, 4)))
+                reqs.append(dict(op="redisplay_clone", t=t, inst=rng.choice(names), cols=rng.randrange(1, 7), rows=rng.randrange(1, 4),
+                                 **({"loaded": True} if rng.random() < 0.5 else {})))
             elif r < 0.68:
                 # the id of an earlier instance forced onto a request for an image (the same or another) with its own geometry,
                 # then the EARLIER instance used again
